@@ -38,6 +38,10 @@ type pfbCase struct {
 	Bufs     []int     `json:"bufs"`   // caller buffer sizes (cycled)
 	Chunks   []int     `json:"chunks"` // underlying read sizes (cycled); empty: all at once
 	WithEOF  bool      `json:"with_eof"`
+	// CopyAfter: if > 0, only the first CopyAfter-1 reads follow Bufs; the
+	// rest of the stream is transferred with io.Copy (which uses the
+	// decoder's WriteTo method if it has one, else large reads)
+	CopyAfter int `json:"copy_after,omitempty"`
 	// Raw, if non-nil, replaces the stream built from Segs (header cases).
 	Raw []byte `json:"raw,omitempty"`
 }
@@ -79,11 +83,20 @@ func (c *pfbCase) stream() (data []byte, want []byte, short bool) {
 
 // readAll reads r with the given buffer-size pattern and checks the
 // fill-the-buffer rule on the way.
-func readPattern(r io.Reader, bufs []int, limit int) (out []byte, err error, rule string) {
+func readPattern(r io.Reader, bufs []int, limit int, copyAfter int) (out []byte, err error, rule string) {
 	if len(bufs) == 0 {
 		bufs = []int{512}
 	}
 	for k := 0; ; k++ {
+		if copyAfter > 0 && k == copyAfter-1 {
+			var rest bytes.Buffer
+			_, e := io.Copy(&rest, r)
+			out = append(out, rest.Bytes()...)
+			if e == nil {
+				e = io.EOF // io.Copy reports a clean end as nil
+			}
+			return out, e, ""
+		}
 		size := bufs[k%len(bufs)]
 		if size < 1 {
 			size = 1
@@ -136,7 +149,7 @@ func check(c *pfbCase) string {
 	} else {
 		src = &iofault.Chunks{Data: data, Sizes: c.Chunks, WithEOF: c.WithEOF}
 	}
-	out, err, rule := readPattern(pfb.Decode(src), c.Bufs, 2*len(data)+16)
+	out, err, rule := readPattern(pfb.Decode(src), c.Bufs, 2*len(data)+16, c.CopyAfter)
 	if rule != "" {
 		return rule
 	}
@@ -272,7 +285,7 @@ func nontrivial(c *pfbCase) bool {
 func TestP1Streams(t *testing.T) {
 	rec := ev.New("C14", "streams")
 	defer rec.Finish(t)
-	rec.Rule("segment sequences (0-8 segments of type 1/2, lengths 0..700 incl. empty, bytes random or hostile 80 01 02 03 patterns), with end marker (+ trailing garbage) or ending after a complete segment; caller buffer-size pattern (1, small, odd/even mixes, large) and underlying read schedule (all at once, 1-byte, drawn chunk sizes, last chunk with EOF) drawn per case; model: text verbatim, binary as lower-case hex. Each Read must fill the buffer unless it ends the stream. Non-trivial: >= 1 odd-length binary or empty segment and >= 1 odd buffer size.")
+	rec.Rule("segment sequences (0-8 segments of type 1/2, lengths 0..700 incl. empty, bytes random or hostile 80 01 02 03 patterns), with end marker (+ trailing garbage) or ending after a complete segment; caller buffer-size pattern (1, small, odd/even mixes, large) and underlying read schedule (all at once, 1-byte, drawn chunk sizes, last chunk with EOF) drawn per case; in a quarter of the cases only the first 0-6 reads use the drawn sizes and the rest of the stream is transferred with io.Copy; model: text verbatim, binary as lower-case hex. Each Read must fill the buffer unless it ends the stream. Non-trivial: >= 1 odd-length binary or empty segment and >= 1 odd buffer size.")
 	ev.SetupRapid(200000, 8000000)
 	rapid.Check(t, func(t *rapid.T) {
 		c := &pfbCase{Segs: genSegs(t)}
@@ -285,10 +298,15 @@ func TestP1Streams(t *testing.T) {
 			c.Chunks = genSizes(t, "chunk", 700)
 		}
 		c.WithEOF = rapid.Bool().Draw(t, "witheof")
+		if rapid.IntRange(0, 3).Draw(t, "copytail") == 0 {
+			// after 0-6 reads of the drawn sizes the rest goes through io.Copy
+			c.CopyAfter = 1 + rapid.IntRange(0, 6).Draw(t, "copyafter")
+			rec.Class("reads-then-io.Copy")
+		}
 		rec.Eval(1)
 		if nontrivial(c) {
 			data, _, _ := c.stream()
-			rec.NonTrivial(fmt.Sprintf("%x|%v|%v|%v", data, c.Bufs, c.Chunks, c.WithEOF))
+			rec.NonTrivial(fmt.Sprintf("%x|%v|%v|%v|%d", data, c.Bufs, c.Chunks, c.WithEOF, c.CopyAfter))
 		}
 		rec.Class(fmt.Sprintf("segs=%d", len(c.Segs)))
 		if len(c.Bufs) == 1 && c.Bufs[0] == 1 {
